@@ -10,6 +10,7 @@ import PyElf.Model.ElfFile
 import PyElf.Spec.ElfFactory
 import PyElf.Proofs.ElfErrors
 import PyElf.Props.TieC01
+import PyElf.Props.C19Loops
 namespace PyElf.Props.C19
 open PyElf PyElf.Spec PyElf.Model PyElf.Proofs
 
